@@ -52,6 +52,7 @@ Definition guard_C09 (hist : list (list wrow)) : bool :=
   && negb (existsb (f3_misfire tf) hist)
   && forallb bound_ok (all_rows hist)
   && wf_bucket (final_bucket hist)
+  && forallb (fun f => 1970 <=? y_year f) (b_files (final_bucket hist))
   && match var_candidates (final_bucket hist) all_start all_end with
      | Ok c => Z.of_nat (length c) <=? maxInt32
      | _ => false
